@@ -155,6 +155,7 @@ type c16Rec struct {
 	Via     string `json:"via"`
 	Refused bool   `json:"refused,omitempty"`
 	Enc     int    `json:"enc"` // encoded size inside a batch
+	Bad     bool   `json:"unserialisable,omitempty"`
 }
 
 type c16Data struct {
@@ -374,6 +375,14 @@ func c16Body(configured bool) func(rc *RunCtx) {
 					r.TimeMs = r.AddMs + skew
 					rp := c16Record(it.id, it.size, r.TimeMs)
 					r.Enc = len(pack.ToBytesPack(rp))
+					if it.id%11 == 7 {
+						// a record that cannot be serialised (built without its constructor: nil tag
+						// map). The sender may drop it; the batch around it must stay consistent
+						rp = &pack.LogSinkPack{}
+						rp.Line = int64(it.id)
+						r.Bad = true
+						simrt.Probe("unserialisable_record")
+					}
 					d.addRec(r)
 					simrt.SetOp(it.id)
 					r.Call = simrt.Stamp()
@@ -645,6 +654,9 @@ func c16After(rc *RunCtx, res *simrt.Result) {
 			continue
 		}
 		n := emitted[r.ID]
+		if r.Bad {
+			continue // may be dropped; what matters is that the batches stay consistent
+		}
 		if n > 1 {
 			viol("duplicate-record", fmt.Sprintf("record %d emitted %d times", r.ID, n))
 		}
